@@ -42,6 +42,13 @@ theorem invH_step {c : Cfg} {s s' : St} {t : Nat} (i : InvAll c s) (g : InvG c s
   · exact invH_step_once hm i g h hs
   · exact invH_step_nonce hm i g h hs
 
+theorem invH_spur {c : Cfg} {s s' : St} {t : Nat} (h : InvH c s)
+    (hs : spurSt c s t = some s') : InvH c s' := by
+  obtain ⟨hb, rfl⟩ := spur_eq hs
+  obtain ⟨h1, h2, h3⟩ := h
+  simp only [afterFutex]
+  refine ⟨?_, ?_, ?_⟩ <;> (split <;> grind)
+
 /-! ## `muggle_ring_buffer_init` yields a power of two -/
 
 theorem nextPow2Aux_pow2 (x : Nat) : ∀ (fuel e : Nat), ∃ e', nextPow2Aux x fuel (2 ^ e) = 2 ^ e' ∧ e' ≤ e + fuel
